@@ -58,6 +58,10 @@ ParamsExtreme ==
   \cup {[d EXCEPT !.wm = x] : x \in {<<0, 1>>, <<0 - 1, 1>>, <<1000, 1>>}}
   \cup {[d EXCEPT !.lm = x, !.bf = f] : x \in {<<0, 1>>, <<0 - 1, 1>>, <<1000, 1>>}, f \in {<<1, 2>>, None}}
   \cup {[d EXCEPT !.bf = x] : x \in {<<0 - 1, 1>>, <<1, 1>>, <<0, 1>>}}
+  \* tiny positive margins (<<1, 1024>> stands for every positive value below one unit; the replay also runs 1e-9 and
+  \* 2^-40, and 1e12, 1e15 and inf for <<1000, 1>>)
+  \cup {[d EXCEPT !.cm = <<1, 1024>>], [d EXCEPT !.wm = <<1, 1024>>], [d EXCEPT !.lm = <<1, 1024>>],
+        [d EXCEPT !.lm = <<1, 1024>>, !.bf = None], [d EXCEPT !.lm = <<1000, 1>>, !.dv = TRUE]}
 \* a small space that takes every action of the machine (vacuity guard, run with -coverage)
 ParamsCover == {[Default(TRUE) EXCEPT !.lm = <<1, 4>>], [Default(TRUE) EXCEPT !.lm = <<1, 4>>, !.bf = None, !.at = TRUE]}
 \* moves for the extremes: a bit of everything, incl. other items, off-page and edge-straddling glyphs
